@@ -13,7 +13,7 @@ def run(ctx):
     binary = vlib.build_harness(ctx, "sem")
     sets = semlib.gen_sets(ctx)
     rng = random.Random(ctx.seed)
-    tables, wheres, los, lims = sets["tables5"], sets["wheres5"], sets["listorders5"], sets["limoffs"]
+    tables, wheres, los, lims = sets["tables5"], sets["wheres5"], sets["listorders5"], sets["limoffs5"]
     tuples = semlib.cover_product(rng, [tables, wheres, los, lims], N[ctx.tier])
     cases = []
     for n, (t, w, lo, lm) in enumerate(tuples):
@@ -26,6 +26,11 @@ def run(ctx):
     for n, (t, w, lo) in enumerate(semlib.cover_product(rng, [tn, wn, ln], N[ctx.tier] // 6)):
         q = dict(**{"from": FROM5}, where=wn[w], list=ln[lo]["list"], group=[], order=ln[lo]["order"], limit=-1, offset=-1, style=n % 8)
         cases.append(dict(db={"t5": tn[t]}, q=q, _t=("null", t)))
+    # strings that spell keywords, operators and punctuation marks, as data and as literals
+    tk, wk, lk = sets["tableskw5"], sets["whereskw5"], sets["listorderskw5"]
+    for n, (t, w, lo) in enumerate(semlib.cover_product(rng, [tk, wk, lk], N[ctx.tier] // 8)):
+        q = dict(**{"from": FROM5}, where=wk[w], list=lk[lo]["list"], group=[], order=lk[lo]["order"], limit=-1, offset=-1, style=n % 8)
+        cases.append(dict(db={"t5": tk[t]}, q=q, _t=("kw", t)))
     # larger tables (12-60 rows drawn from the rows TLC enumerated), stored at page capacities 3/3 so that the table's
     # tree has three or more levels: "any number of rows" must not depend on how rows are laid out over pages
     pool_rows = []
@@ -43,7 +48,7 @@ def run(ctx):
             cases.append(dict(db={"t5": big}, q=q, _t=("big", b), caps=[3, 3]))
     pool = vlib.WorkerPool(ctx, binary)
     try:
-        semlib.execute(ctx, pool, cases, lambda c: c["_t"])
+        semlib.execute(ctx, pool, cases, lambda c: c["_t"], history=random.Random(ctx.seed + 5))
     finally:
         pool.close()
     report(ctx, cases, "C05", "c05")
